@@ -1042,6 +1042,26 @@ func (sc *Scope) trCall(x *ECall) (Term, types.Type) {
 		a, _ := arg(0)
 		b, _ := arg(1)
 		return T(SInt, "(str.indexof %s %s 0)", a.S, b.S), tInt
+	case "stream":
+		// the complete byte stream an io.Reader will deliver
+		t, _ := arg(0)
+		fc.eng.GDecl("streamdata", "(declare-fun streamdata (Int) String)")
+		return T(SString, "(streamdata %s)", t.S), tString
+	case "streamat":
+		// k-th byte of the stream an io.Reader will deliver
+		t, _ := arg(0)
+		k, _ := arg(1)
+		fc.eng.GDecl("streamarr", "(declare-fun streamarr (Int) (Array Int Int))")
+		return T(SInt, "(select (streamarr %s) %s)", t.S, k.S), tByte
+	case "streamlen":
+		t, _ := arg(0)
+		fc.eng.GDecl("streamlen", "(declare-fun streamlen (Int) Int)")
+		fc.eng.GAxiom("streamlen_nonneg", "(assert (forall ((r Int)) (! (>= (streamlen r) 0) :pattern ((streamlen r)))))", "streamlen")
+		return T(SInt, "(streamlen %s)", t.S), tInt
+	case "cursor":
+		// how many bytes of stream(r) have been delivered so far
+		t, _ := arg(0)
+		return Select(fc.lookupIn(sc.curEnv(), fc.libStateVar("stream")), t), tInt
 	case "written":
 		// bytes written so far to an io.Writer / hash.Hash
 		t, _ := arg(0)
